@@ -34,6 +34,10 @@ CHECKS = {
                 text="Histories of 2-4 operations incl. injected mid-render failures, re-renders, direct generator calls and implicit-registry generations.", note=TB, ref="4 C14"),
     "C15": dict(category="exploration", technique="runtime monitoring: real threads under 1us switch interval with seeded sys.monitoring LINE yield injection; per-thread output vs solo output; overlap of render windows observed",
                 text="Single calls from a fresh worker thread and schedules of 2-8 concurrent pipelines; overlapping windows must actually be observed.", note=TB + " Schedules are sampled, not enumerated.", ref="4 C15"),
+    "C16": dict(category="exploration", technique="runtime monitoring: real CLI subprocesses; stdout after the header / -o file compared with the library text obtained by an independent reference front end",
+                text="File splittings, lookups, -m/-l, globs, json/yaml/ini x all documented options.", note=TB, ref="4 C16"),
+    "C17": dict(category="fault_enumeration", technique="runtime monitoring: fault injection into real CLI subprocesses (fault kinds x positions x target states, sys.monitoring failpoints via sitecustomize) observed by exit status, stdout, target bytes, audit-hook trace and strace",
+                text="The list of fault kinds is enumerated completely (x position x target state); failpoints sampled in quick, every index in thorough.", note=TB, ref="4 C17"),
 }
 NOT_YET = {}
 props = [json.loads(l) for l in open(os.path.join(HERE, "properties.jsonl"))]
